@@ -1050,6 +1050,8 @@ class NumpyModel(object):
         out = self.new(a.shape, a.dtype, lambda *idx, f=f: f(*idx), cls=a.cls if a.cls == 'FCSData' else None,
                        finalize_from=a if a.cls == 'FCSData' else None)
         out.bits = a.bits
+        if hasattr(a, 'float_bits'):
+            out.float_bits = a.float_bits
         return out
 
     def m_copy(self, a, order=None):
@@ -1406,6 +1408,7 @@ class NumpyModel(object):
             v = I.force(a[0])
             if isinstance(v, NDArr):
                 out = self.m_astype(v, d) if dt else self.copy_array(v)
+                out.writeable = True
                 if out.cls == 'FCSData':
                     # np.array(FCSData) returns a base-class array
                     out.cls = 'ndarray'
@@ -1499,6 +1502,26 @@ class NumpyModel(object):
                 return self.new(x.shape, 'bool', lambda *idx: z3.BoolVal(False))
             return False
 
+        @reg('dtype')
+        def _dtype(I_, a, k):
+            d = a[0]
+            if isinstance(d, str):
+                big = d.startswith('>')
+                body = d.lstrip('<>=|')
+                if body and body[0] in 'uf' and body[1:].isdigit():
+                    nb = int(body[1:])
+                    if body[0] == 'u' and nb in (1, 2, 4, 8):
+                        return Opaque('dtype', ('uint', 8 * nb, big))
+                    if body[0] == 'f' and nb in (4, 8):
+                        return Opaque('dtype', ('float', 8 * nb, big))
+                    raise_py('TypeError', 'data type %r not understood' % d)
+            dt, bits = self.dtype_of(d)
+            return Opaque('dtype', (dt, bits))
+
+        @reg('memmap')
+        def _memmap(I_, a, k):
+            return self.memmap(a, k)
+
         @reg('allclose')
         def _allclose(I_, a, k):
             return self.allclose(a, k)
@@ -1521,6 +1544,62 @@ class NumpyModel(object):
             body = self.cast(A.fn(*idx), A.dtype, w) == self.cast(B.fn(*idx), B.dtype, w)
             e = z3.ForAll(idx, z3.Implies(rng, body)) if idx else body
             return I.mk(e, 'bool')
+
+    def memmap(self, a, k):
+        """np.memmap(buf, dtype, mode='r', offset, shape, order='C') on a modelled file (A-IO):
+        raises ValueError when offset + nbytes exceeds the file size; element (i, j) is the integer (or IEEE value)
+        of the B bytes at offset + (i*D + j)*B in the declared byte order."""
+        from .interp import raise_py
+        I = self.I
+        buf = a[0]
+        if not (isinstance(buf, Opaque) and buf.tag == 'file'):
+            raise Unsupported('memmap of a non-modelled buffer')
+        fm = buf.payload
+        d = k.get('dtype')
+        if isinstance(d, str):
+            d = self.table['numpy.dtype'].fn(I, [d], {})
+        if not (isinstance(d, Opaque) and d.tag == 'dtype' and len(d.payload) == 3):
+            raise Unsupported('memmap dtype')
+        dt, bits, big = d.payload
+        B = bits // 8
+        if k.get('mode') != 'r' or k.get('order', 'C') != 'C':
+            raise Unsupported('memmap mode/order')
+        off = I.z(k.get('offset', 0), 'int')
+        shp = k['shape']
+        dims = [I.z(x, 'int') for x in (shp.items if isinstance(shp, Seq) else [shp])]
+        if len(dims) != 2:
+            raise Unsupported('memmap shape rank')
+        N, D = dims
+        I.ctx.use_axiom('A-IO:np.memmap raises when offset + N*D*B exceeds the file size, else exposes the bytes in C order')
+        fm.facts(I)
+        if I.ctx.branch(z3.Or(off + N * D * B > fm.size, off < 0, N < 0, D < 0)):
+            raise_py('ValueError', 'mmap length is greater than file size')
+        byte = fm.byte
+
+        def pos(i, j, kk):
+            return off + (i * D + j) * B + kk
+        if dt == 'uint':
+            def fn(i, j):
+                terms = []
+                for kk in range(B):
+                    e = (B - 1 - kk) if big else kk
+                    terms.append(byte(pos(i, j, kk)) * (256 ** e))
+                return z3.Sum(terms) if len(terms) > 1 else terms[0]
+            out = self.new([self.norm_dim(N), self.norm_dim(D)], 'uint', fn)
+            out.bits = bits
+        else:
+            ie = fm.ieee(bits)
+
+            def fn(i, j):
+                bs = [byte(pos(i, j, kk)) for kk in range(B)]
+                if not big:
+                    bs = list(reversed(bs))
+                return ie(*bs)
+            out = self.new([self.norm_dim(N), self.norm_dim(D)], 'float', fn)
+            out.float_bits = bits
+        out.writeable = False
+        out.memmap_of = (fm, off, bits, big)
+        return out
 
     def allclose(self, a, k):
         I = self.I
